@@ -342,7 +342,7 @@ func selfTest(n int) error {
 	}
 	opts := exploreOpts(nil, time.Time{})
 	// budget (0,0) must contain the linear run: every call released with its first ok variant, the
-	// terminating event last -> one bid at the maximum price after a reservation, unreserve, close-bid
+	// terminating event last -> one bid at the maximum price after a reservation
 	linear := false
 	inner := factory(cfg, map[string]bool{})
 	probe := func() vs.Exec {
@@ -350,7 +350,9 @@ func selfTest(n int) error {
 		chk := ex.Check
 		ex.Check = func(r *vs.Result) (string, []string) {
 			obs, v := chk(r)
-			if strings.HasPrefix(obs, "done|env[group:ok attr:match reserve:ok price:ok createbid:ok event:order-closed unreserve:ok closebid:ok]|calls[group=ok attr=match reserve=ok price=ok createbid=ok@46uakt unreserve=ok closebid=ok]|ended=true drained=true") && len(v) == 0 {
+			// (only the walk is demanded, not a clean verdict: a defective clean-up must surface as a VIOLATION of
+			// the exploration, not as a failed self-test)
+			if strings.HasPrefix(obs, "done|env[group:ok attr:match reserve:ok price:ok createbid:ok event:order-closed") && strings.Contains(obs, "reserve=ok price=ok createbid=ok@46uakt") {
 				linear = true
 			}
 			return obs, v
